@@ -122,3 +122,9 @@ structure SRResult (α : Type) where
   control : α
   treatment : α
   pvalue : α
+
+/-- `math.isnan` in the value rendering: the model's numbers are elements of a field, never NaN
+(what happens with NaN / inf is the subject of the safety rendering, C18) -/
+def isNaN {α : Type} (_ : α) : Bool := false
+
+@[simp] theorem isNaN_eq {α : Type} (x : α) : isNaN x = false := rfl
